@@ -463,6 +463,7 @@ def _parse_line_v33(raw, system):
             'u': data[13],
             'bus1': data[0], 'bus2': data[1],
             'r': data[3], 'x': data[4], 'b': data[5],
+            'g1': data[9], 'b1': data[10], 'g2': data[11], 'b2': data[12],   # GI, BI, GJ, BJ
             'rate_a': data[6], 'rate_b': data[7], 'rate_c': data[8],
             'Vn1': system.Bus.get(src='Vn', idx=data[0], attr='v'),
             'Vn2': system.Bus.get(src='Vn', idx=data[1], attr='v'),
